@@ -118,6 +118,18 @@ def schedules_from_behaviours(behs, streams, prefix):
     return scheds
 
 
+def staged_flush_retry(ck, prop, qcap=2):
+    """the Flush that finds the queue full and succeeds on a retry (a path of its own in Stream.Flush): staged on a real
+    session pair; used by C09 (ledger) and C05 (the retried element must not be stranded)"""
+    job = {'nstreams': 1, 'qcap': qcap, 'known': [], 'schedules': [], 'staged': True,
+           'random': {'n': 0, 'seed': 1, 'steps': 0, 'streams': 1}}
+    r = harness(ck, prop, job)
+    if r is not None and r.get('staged'):
+        ck.cov['staged_flush_retry_scenarios'] = r['staged']
+        ck.add('evaluations', len(r['staged']))
+    return r
+
+
 def harness(ck, prop, job, report=True):
     g = gorun.run_harness('^TestVS_Session$', HARNESS, INSTR, inputs={'job': job}, timeout=2400)
     if g.result is None:
@@ -128,7 +140,7 @@ def harness(ck, prop, job, report=True):
         for v in r['violations']:
             if v['property'] == prop:
                 ck.violation('%s (%s): %s' % (v['kind'], v['schedule'], v['detail']),
-                             {'kind': 'schedule', 'nstreams': v['nstreams'], 'qcap': v['qcap'],
+                             {'kind': 'schedule', 'nstreams': v['nstreams'], 'qcap': v['qcap'], 'msglen': job.get('msglen', 3),
                               'steps': [[s['a'], s['e'], s['s']] for s in (v['steps'] or [])], 'detail': v['detail']})
             else:
                 ck.notes.append("also saw a %s violation (%s: %s) - reported by that property's own check"
@@ -152,7 +164,7 @@ def run(prop, tier, seed, replay=None):
         'writers are parked only where the spec has a step boundary (after the element is on the queue, after the working '
         'flag is won); the drain of the queue by a polling event is atomic at this level (its interleaving with producers '
         'is module IOQueue)',
-        'synchronous API (no StreamCallbacks; callback mode is module Callback, C20); each message is 3 bytes in one buffer',
+        'synchronous API (no StreamCallbacks; callback mode is module Callback, C20); each message is 3 bytes in one buffer, or 9 bytes in a chain of three buffers (every second configuration)',
         'named restriction of the model: the server end closes a stream locally only when no client data for it is in flight',
     ]
     known = core.known_findings()
@@ -178,7 +190,7 @@ def run(prop, tier, seed, replay=None):
             ck.cov['distinct_nontrivial'] = 1
             harness(ck, prop, job)
             return ck.finish()
-        job = {'nstreams': rep['nstreams'], 'qcap': rep['qcap'], 'known': [],
+        job = {'nstreams': rep['nstreams'], 'qcap': rep['qcap'], 'known': [], 'msglen': rep.get('msglen', 3),
                'schedules': [{'name': 'replay', 'steps': [{'a': a, 'e': e, 's': s} for a, e, s in rep['steps']]}],
                'random': {'n': 0, 'seed': 1, 'steps': 0, 'streams': 1}}
         ck.cov['evaluations'] = 1
@@ -190,7 +202,9 @@ def run(prop, tier, seed, replay=None):
     # ---- 1. exhaustive small configurations (known-finding classes pruned), edge cover replayed
     plans = [([1], 2, 3, 0, 2), ([1], 2, 2, 1, 1)] if tier == 'quick' else \
             [([1], 2, 3, 0, 2), ([1], 2, 2, 1, 2), ([1, 2], 2, 1, 0, 0), ([1], 1, 2, 1, 1)]
-    for (streams, qcap, ma, mb, mexh) in plans:
+    for pi, (streams, qcap, ma, mb, mexh) in enumerate(plans):
+        # every second configuration is replayed with 9-byte messages: each message is then a chain of three buffers
+        msglen = 9 if pi % 2 == 1 else 3
         ck.log('TLC exhaustive: streams %s, queue cap %d, msgs A=%d B=%d, exhaust toggles %d' % (streams, qcap, ma, mb, mexh))
         res, nodes, edges, inits = tlc.dump_graph('MC_Session', 'mc.cfg', timeout=1500,
                                                   extra_files=mc_files(streams, qcap, ma, mb, mexh, True, INVS))
@@ -207,7 +221,7 @@ def run(prop, tier, seed, replay=None):
         if tier == 'quick' and len(scheds) > 4500:
             scheds = rng.sample(scheds, 1200)
         job = {'nstreams': len(streams), 'qcap': qcap, 'known': listed + SKIP.get(prop, []), 'schedules': scheds,
-               'staged': (prop == 'C09' and not ck.cov.get('staged_fault_scenarios')),
+               'staged': (prop == 'C09' and not ck.cov.get('staged_fault_scenarios')), 'msglen': msglen,
                'random': {'n': 0, 'seed': ck.seed, 'steps': 0, 'streams': 1}}
         ck.log('graph ready: %d cover paths, replaying %d' % (total_paths, len(scheds)))
         r = harness(ck, prop, job)
@@ -221,9 +235,9 @@ def run(prop, tier, seed, replay=None):
         ck.add('eos_checks', r['eos_checks'])
         if r.get('staged'):
             ck.cov['staged_fault_scenarios'] = r['staged']
-        ck.cov['tlc_configs'].append('Session streams=%s qcap=%d msgs=(%d,%d) exhaust<=%d, finding classes pruned: %d states, '
+        ck.cov['tlc_configs'].append('Session streams=%s qcap=%d msgs=(%d,%d) exhaust<=%d, %d-byte messages, finding classes pruned: %d states, '
                                      '%d transitions, depth %d; %d of %d cover paths replayed, %d conforming'
-                                     % (streams, qcap, ma, mb, mexh, res.distinct, len(edges), res.depth, r['replayed'], total_paths, r['conforming']))
+                                     % (streams, qcap, ma, mb, mexh, msglen, res.distinct, len(edges), res.depth, r['replayed'], total_paths, r['conforming']))
         if scheds:
             ck.sample({'tlc_behaviour_replayed': [(s['a'], s['e'], s['s']) for s in scheds[len(scheds) // 2]['steps']]})
         if ck.violations:
@@ -268,7 +282,7 @@ def run(prop, tier, seed, replay=None):
         sres, behs = tlc.simulate('MC_Session', 'mc.cfg', num=120 if tier == 'quick' else 1500, depth=60, seed=ck.seed, timeout=900,
                                   extra_files=mc_files([1, 2], 2, 2, 1, 1, True, INVS))
         scheds = schedules_from_behaviours(behs, [1, 2], 'sim')
-        job = {'nstreams': 2, 'qcap': 2, 'known': listed + SKIP.get(prop, []), 'schedules': scheds,
+        job = {'nstreams': 2, 'qcap': 2, 'known': listed + SKIP.get(prop, []), 'schedules': scheds, 'msglen': 9 if ck.seed % 2 else 3,
                'random': {'n': 150 if tier == 'quick' else 5000, 'seed': ck.seed, 'steps': 40, 'streams': 3}}
         r = harness(ck, prop, job)
         if r is not None:
